@@ -13,6 +13,7 @@ import (
 	"math/rand"
 	"os"
 	"sort"
+	"time"
 
 	"go.opentelemetry.io/otel/attribute"
 	"go.opentelemetry.io/otel/codes"
@@ -45,23 +46,83 @@ type AAttr struct {
 	Y [][]string `json:"y,omitempty"`
 }
 
-type Op struct {
-	Op    string  `json:"op"`
-	Attrs []AAttr `json:"attrs,omitempty"`
-	Name  string  `json:"name"`
-	N     int     `json:"n"`
-	Valid bool    `json:"valid"`
-	Code  string  `json:"code"`
-	Desc  string  `json:"desc"`
+// link class as in SpanModel.tla: valid span context?, non-empty trace state?, number of attributes
+type LinkOp struct {
+	Valid bool `json:"valid"`
+	TST   bool `json:"tst"`
+	N     int  `json:"n"`
 }
 
+type Op struct {
+	Op     string   `json:"op"`
+	Attrs  []AAttr  `json:"attrs"`
+	Links  []LinkOp `json:"links"`
+	Name   string   `json:"name"`
+	Keys   []string `json:"keys"`
+	TS     string   `json:"ts"`
+	Stack  bool     `json:"stack"`
+	NilErr bool     `json:"nilerr"`
+	N      int      `json:"n"`
+	Valid  bool     `json:"valid"`
+	TST    bool     `json:"tst"`
+	Code   string   `json:"code"`
+	Desc   string   `json:"desc"`
+}
+
+// MarshalJSON emits exactly the fields the TLA+ operation record of that kind has (uniform
+// shapes, never null).
+func (o Op) MarshalJSON() ([]byte, error) {
+	m := map[string]any{"op": o.Op}
+	nn := func(a []AAttr) []AAttr {
+		if a == nil {
+			return []AAttr{}
+		}
+		return a
+	}
+	keys := o.Keys
+	if keys == nil {
+		keys = []string{}
+	}
+	switch o.Op {
+	case "Start":
+		m["attrs"] = nn(o.Attrs)
+		if o.Links == nil {
+			m["links"] = []LinkOp{}
+		} else {
+			m["links"] = o.Links
+		}
+	case "SetAttributes":
+		m["attrs"] = nn(o.Attrs)
+	case "AddEvent":
+		m["name"], m["ts"], m["keys"] = o.Name, o.TS, keys
+	case "RecordError":
+		m["nilerr"], m["stack"], m["ts"], m["keys"] = o.NilErr, o.Stack, o.TS, keys
+	case "AddLink":
+		m["valid"], m["tst"], m["n"] = o.Valid, o.TST, o.N
+	case "SetStatus":
+		m["code"], m["desc"] = o.Code, o.Desc
+	case "SetName":
+		m["name"] = o.Name
+	}
+	return json.Marshal(m)
+}
+
+// one kept event attribute: key and position in the caller's list (1-based; 0 for the
+// attributes RecordError generates, -1 if the value is not the one that was offered)
+type AKey struct {
+	K string `json:"k"`
+	I int    `json:"i"`
+}
 type AEvent struct {
 	Name string `json:"name"`
-	N    int    `json:"n"`
+	TS   string `json:"ts"`
+	Ks   []AKey `json:"ks"`
+	Ks2  []AKey `json:"ks2,omitempty"`
 	D    int    `json:"d"`
 }
 type ALink struct {
 	Valid bool `json:"valid"`
+	TST   bool `json:"tst"`
 	N     int  `json:"n"`
 	D     int  `json:"d"`
 }
@@ -149,6 +210,18 @@ func abstractKV(kv attribute.KeyValue, want *AAttr) AAttr {
 
 var errBoom = errors.New("boom")
 
+type myErr struct{}
+
+func (myErr) Error() string { return "custom failure" }
+
+// the error RecordError is called with and the exception.type / exception.message it must yield
+func errFor(rep int) (error, string, string) {
+	if rep%2 == 1 {
+		return myErr{}, "main.myErr", "custom failure"
+	}
+	return errBoom, "*errors.errorString", "boom"
+}
+
 func evAttrs(n int) []attribute.KeyValue {
 	out := make([]attribute.KeyValue, n)
 	for i := range out {
@@ -161,6 +234,104 @@ var validSC = trace.NewSpanContext(trace.SpanContextConfig{
 	TraceID: trace.TraceID{1, 2, 3}, SpanID: trace.SpanID{4, 5, 6}, TraceFlags: trace.FlagsSampled,
 })
 
+var someTS = func() trace.TraceState {
+	ts, err := trace.ParseTraceState("vendor=v1")
+	vh.Must(err)
+	return ts
+}()
+
+var evTimes = map[string]time.Time{"t1": time.Unix(1000, 0), "t2": time.Unix(2000, 5)}
+
+func concreteLink(l LinkOp) trace.Link {
+	cfg := trace.SpanContextConfig{}
+	if l.Valid {
+		cfg = trace.SpanContextConfig{TraceID: trace.TraceID{1, 2, 3}, SpanID: trace.SpanID{4, 5, 6}, TraceFlags: trace.FlagsSampled}
+	}
+	if l.TST {
+		cfg.TraceState = someTS
+	}
+	out := trace.Link{SpanContext: trace.NewSpanContext(cfg)}
+	if l.N > 0 || l.Valid { // an ignorable link is the zero Link (nil attributes)
+		out.Attributes = evAttrs(l.N)
+	}
+	return out
+}
+
+// eventOpts concretizes the options of AddEvent / RecordError: attribute j of the caller's list
+// is Int(key, j) (1-based position); rep decides how the list is split over WithAttributes
+// options (documented: successive options extend) and where the other options stand.
+func eventOpts(op Op, rep int) []trace.EventOption {
+	kvs := make([]attribute.KeyValue, len(op.Keys))
+	for i, k := range op.Keys {
+		kvs[i] = attribute.Int(k, i+1)
+	}
+	var opts []trace.EventOption
+	var tail []trace.EventOption
+	put := func(o trace.EventOption, front bool) {
+		if front {
+			opts = append(opts, o)
+		} else {
+			tail = append(tail, o)
+		}
+	}
+	if t, ok := evTimes[op.TS]; ok {
+		put(trace.WithTimestamp(t), rep%2 == 0)
+	}
+	if op.Stack {
+		put(trace.WithStackTrace(true), rep%4 < 2)
+	} else if rep%5 == 3 {
+		put(trace.WithStackTrace(false), true)
+	}
+	switch rep % 3 {
+	case 0:
+		if len(kvs) > 0 || rep%2 == 0 {
+			opts = append(opts, trace.WithAttributes(kvs...))
+		}
+	case 1:
+		for _, kv := range kvs {
+			opts = append(opts, trace.WithAttributes(kv))
+		}
+	case 2:
+		h := len(kvs) / 2
+		opts = append(opts, trace.WithAttributes(kvs[:h]...), trace.WithAttributes(kvs[h:]...))
+	}
+	return append(opts, tail...)
+}
+
+// startOpts concretizes Start(attrs, links) as SpanStartOptions (split over several options by rep).
+func startOpts(op Op, rep int) []trace.SpanStartOption {
+	kvs := make([]attribute.KeyValue, len(op.Attrs))
+	for i, a := range op.Attrs {
+		kvs[i] = concreteKV(a, rep)
+	}
+	lks := make([]trace.Link, len(op.Links))
+	for i, l := range op.Links {
+		lks[i] = concreteLink(l)
+	}
+	var opts []trace.SpanStartOption
+	switch rep % 3 {
+	case 0:
+		if len(kvs) > 0 {
+			opts = append(opts, trace.WithAttributes(kvs...))
+		}
+		if len(lks) > 0 {
+			opts = append(opts, trace.WithLinks(lks...))
+		}
+	case 1:
+		for _, l := range lks {
+			opts = append(opts, trace.WithLinks(l))
+		}
+		for _, kv := range kvs {
+			opts = append(opts, trace.WithAttributes(kv))
+		}
+	case 2:
+		h, g := len(kvs)/2, len(lks)/2
+		opts = append(opts, trace.WithAttributes(kvs[:h]...), trace.WithLinks(lks[:g]...),
+			trace.WithSpanKind(trace.SpanKindServer), trace.WithLinks(lks[g:]...), trace.WithAttributes(kvs[h:]...))
+	}
+	return opts
+}
+
 // apply performs one abstract operation on the real span; concrete strings use representative rep.
 func apply(span trace.Span, op Op, rep int) {
 	switch op.Op {
@@ -171,15 +342,16 @@ func apply(span trace.Span, op Op, rep int) {
 		}
 		span.SetAttributes(kvs...)
 	case "AddEvent":
-		span.AddEvent(op.Name, trace.WithAttributes(evAttrs(op.N)...))
+		span.AddEvent(op.Name, eventOpts(op, rep)...)
 	case "RecordError":
-		span.RecordError(errBoom, trace.WithAttributes(evAttrs(op.N)...))
-	case "AddLink":
-		l := trace.Link{Attributes: evAttrs(op.N)}
-		if op.Valid {
-			l.SpanContext = validSC
+		if op.NilErr {
+			span.RecordError(nil, eventOpts(op, rep)...)
+			return
 		}
-		span.AddLink(l)
+		e, _, _ := errFor(rep)
+		span.RecordError(e, eventOpts(op, rep)...)
+	case "AddLink":
+		span.AddLink(concreteLink(LinkOp{Valid: op.Valid, TST: op.TST, N: op.N}))
 	case "SetStatus":
 		var c codes.Code
 		switch op.Code {
@@ -195,36 +367,65 @@ func apply(span trace.Span, op Op, rep int) {
 		span.SetName(op.Name)
 	case "End":
 		span.End()
+	case "Peek":
+		// read the live span through every ReadOnlySpan accessor (Attributes() de-duplicates in
+		// place): observation must not change what is exported
+		if ro, ok := span.(sdktrace.ReadOnlySpan); ok {
+			_, _, _ = ro.Attributes(), ro.Events(), ro.Links()
+			_, _, _ = ro.DroppedAttributes(), ro.DroppedEvents(), ro.DroppedLinks()
+			_, _, _ = ro.Status(), ro.Name(), ro.EndTime()
+		}
+	case "Start":
+		// a second Start on an existing span does not exist in the API: no-op (as in the model)
 	default:
 		panic("unknown op " + op.Op)
 	}
 }
 
+// number of kept link attributes if they are exactly the first n offered (ea0..), else -1
 func prefixCount(attrs []attribute.KeyValue) int {
-	// number of kept attributes if they are exactly the first n offered (ea0..), else -1;
-	// RecordError appends exception.type / exception.message after the caller's attributes
-	n := 0
 	for i, kv := range attrs {
-		if string(kv.Key) == fmt.Sprintf("ea%d", i) && kv.Value.AsInt64() == int64(i) {
-			n++
-			continue
+		if string(kv.Key) != fmt.Sprintf("ea%d", i) || kv.Value.Type() != attribute.INT64 || kv.Value.AsInt64() != int64(i) {
+			return -1
 		}
-		rest := attrs[i:]
-		for j, r := range rest {
-			want := []string{"exception.type", "exception.message"}
-			if j >= len(want) || string(r.Key) != want[j] {
-				return -1
-			}
-			n++
-		}
-		break
 	}
-	return n
+	return len(attrs)
+}
+
+// kept event attributes as (key, position): the position is the value the harness gave the
+// attribute; generated exception.* attributes have position 0 when their value is right (the
+// stack trace is environment specific: any non-empty string), -1 otherwise.
+func eventKeys(attrs []attribute.KeyValue, rep int) []AKey {
+	out := []AKey{}
+	_, wantType, wantMsg := errFor(rep)
+	for _, kv := range attrs {
+		k := AKey{K: string(kv.Key), I: -1}
+		switch k.K {
+		case "exception.type":
+			if kv.Value.Type() == attribute.STRING && kv.Value.AsString() == wantType {
+				k.I = 0
+			}
+		case "exception.message":
+			if kv.Value.Type() == attribute.STRING && kv.Value.AsString() == wantMsg {
+				k.I = 0
+			}
+		case "exception.stacktrace":
+			if kv.Value.Type() == attribute.STRING && len(kv.Value.AsString()) > 0 {
+				k.I = 0
+			}
+		default:
+			if kv.Value.Type() == attribute.INT64 && kv.Value.AsInt64() > 0 {
+				k.I = int(kv.Value.AsInt64())
+			}
+		}
+		out = append(out, k)
+	}
+	return out
 }
 
 // project the exported span onto the model's state space. offered maps key -> last offered
 // abstract attribute (only used to echo non-string payloads).
-func project(ro sdktrace.ReadOnlySpan, ended bool, offered map[string]AAttr) State {
+func project(ro sdktrace.ReadOnlySpan, ended bool, offered map[string]AAttr, rep int) State {
 	st := State{Attrs: []AAttr{}, Events: []AEvent{}, Links: []ALink{}, Ended: ended}
 	for _, kv := range ro.Attributes() {
 		var w *AAttr
@@ -235,11 +436,20 @@ func project(ro sdktrace.ReadOnlySpan, ended bool, offered map[string]AAttr) Sta
 	}
 	st.Dropped = ro.DroppedAttributes()
 	for _, e := range ro.Events() {
-		st.Events = append(st.Events, AEvent{Name: e.Name, N: prefixCount(e.Attributes), D: e.DroppedAttributeCount})
+		ts := ""
+		for name, t := range evTimes {
+			if e.Time.Equal(t) {
+				ts = name
+			}
+		}
+		if e.Time.IsZero() {
+			ts = "zero"
+		}
+		st.Events = append(st.Events, AEvent{Name: e.Name, TS: ts, Ks: eventKeys(e.Attributes, rep), D: e.DroppedAttributeCount})
 	}
 	st.EvDropped = ro.DroppedEvents()
 	for _, l := range ro.Links() {
-		st.Links = append(st.Links, ALink{Valid: l.SpanContext.IsValid(), N: prefixCount(l.Attributes), D: l.DroppedAttributeCount})
+		st.Links = append(st.Links, ALink{Valid: l.SpanContext.IsValid(), TST: l.SpanContext.TraceState().Len() > 0, N: prefixCount(l.Attributes), D: l.DroppedAttributeCount})
 	}
 	st.LkDropped = ro.DroppedLinks()
 	switch ro.Status().Code {
@@ -256,7 +466,8 @@ func project(ro sdktrace.ReadOnlySpan, ended bool, offered map[string]AAttr) Sta
 }
 
 // run executes ops on a fresh span under lim and returns the projection of the exported span.
-// Calls after End are part of ops; if ops contain no End the span is ended to obtain the export.
+// A leading Start operation carries the options the span is created with. Calls after End are
+// part of ops; if ops contain no End the span is ended to obtain the export.
 func run(lim Lim, ops []Op, rep int) (st State, panicked any) {
 	defer func() {
 		if r := recover(); r != nil {
@@ -266,9 +477,17 @@ func run(lim Lim, ops []Op, rep int) (st State, panicked any) {
 	exp := &capExporter{}
 	tp := sdktrace.NewTracerProvider(sdktrace.WithRawSpanLimits(lim.raw()), sdktrace.WithSyncer(exp),
 		sdktrace.WithSampler(sdktrace.AlwaysSample()))
-	_, span := tp.Tracer("c04").Start(context.Background(), "n0")
-	ended := false
 	offered := map[string]AAttr{}
+	var sopts []trace.SpanStartOption
+	if len(ops) > 0 && ops[0].Op == "Start" {
+		sopts = startOpts(ops[0], rep)
+		for _, a := range ops[0].Attrs {
+			offered[a.K] = a
+		}
+		ops = ops[1:]
+	}
+	_, span := tp.Tracer("c04").Start(context.Background(), "n0", sopts...)
+	ended := false
 	for _, op := range ops {
 		if op.Op == "SetAttributes" && !ended {
 			for _, a := range op.Attrs {
@@ -286,7 +505,7 @@ func run(lim Lim, ops []Op, rep int) (st State, panicked any) {
 	if len(exp.spans) != 1 {
 		panic(fmt.Sprintf("exported %d spans, want 1", len(exp.spans)))
 	}
-	return project(exp.spans[0], ended, offered), nil
+	return project(exp.spans[0], ended, offered, rep), nil
 }
 
 func seqEq(a, b [][]string) bool {
@@ -334,8 +553,18 @@ func diff(got, want State) string {
 	if got.Dropped != want.Dropped {
 		return fmt.Sprintf("droppedAttributes %d != %d", got.Dropped, want.Dropped)
 	}
-	if fmt.Sprint(got.Events) != fmt.Sprint(want.Events) {
+	if len(got.Events) != len(want.Events) {
 		return "events"
+	}
+	for i, w := range want.Events {
+		g := got.Events[i]
+		if g.Name != w.Name || g.TS != w.TS || g.D != w.D {
+			return "events"
+		}
+		// either admissible order of the same attribute list (SpanModel: ks / ks2)
+		if fmt.Sprint(g.Ks) != fmt.Sprint(w.Ks) && fmt.Sprint(g.Ks) != fmt.Sprint(w.Ks2) {
+			return "events"
+		}
 	}
 	if got.EvDropped != want.EvDropped {
 		return fmt.Sprintf("droppedEvents %d != %d", got.EvDropped, want.EvDropped)
@@ -423,6 +652,7 @@ func replay(args []string) {
 		if want.EvDropped > 0 || want.LkDropped > 0 {
 			res.Count("edges_with_evicted", 1)
 		}
+		countRegimes(res, "edges", lim, ops)
 		if i%997 == 0 {
 			res.Sample(map[string]any{"ops": ops, "to": want})
 		}
@@ -484,6 +714,91 @@ func randLim(r *rand.Rand) Lim {
 	return Lim{AC: pick(8), VL: pick(6), EC: pick(4), LC: pick(4), PE: pick(3), PL: pick(3)}
 }
 
+// countRegimes counts the interesting input regimes a case reaches (vacuity guard).
+func countRegimes(res *vh.Result, pfx string, lim Lim, ops []Op) {
+	for i, op := range ops {
+		switch op.Op {
+		case "Start":
+			if i != 0 {
+				continue
+			}
+			if len(op.Attrs) > 0 {
+				res.Count(pfx+"_start_attrs", 1)
+			}
+			ign, kept := 0, 0
+			for _, l := range op.Links {
+				if !l.Valid && !l.TST && l.N == 0 {
+					ign++
+				} else {
+					kept++
+				}
+			}
+			if len(op.Links) > 0 {
+				res.Count(pfx+"_start_links", 1)
+			}
+			if ign > 0 && lim.LC > 0 && len(op.Links) > lim.LC {
+				res.Count(pfx+"_start_links_overlimit_with_ignorable", 1)
+			}
+			if lim.LC >= 0 && kept > lim.LC {
+				res.Count(pfx+"_start_links_evicting", 1)
+			}
+		case "RecordError":
+			if op.NilErr {
+				res.Count(pfx+"_recorderror_nil", 1)
+				continue
+			}
+			if op.Stack {
+				res.Count(pfx+"_recorderror_stack", 1)
+				if lim.PE >= 0 && len(op.Keys)+3 > lim.PE {
+					res.Count(pfx+"_recorderror_stack_cut_by_cap", 1)
+				}
+			}
+		case "AddEvent":
+			seen := map[string]bool{}
+			for _, k := range op.Keys {
+				if seen[k] {
+					res.Count(pfx+"_event_duplicate_keys", 1)
+					break
+				}
+				seen[k] = true
+			}
+			if op.TS != "" {
+				res.Count(pfx+"_event_timestamp", 1)
+			}
+		case "Peek":
+			res.Count(pfx+"_peek", 1)
+		case "AddLink":
+			if !op.Valid && (op.TST || op.N > 0) {
+				res.Count(pfx+"_link_invalid_ctx_kept", 1)
+			}
+			if !op.Valid && !op.TST && op.N == 0 {
+				res.Count(pfx+"_link_ignorable", 1)
+			}
+		}
+	}
+}
+
+func randLink(r *rand.Rand) LinkOp {
+	switch r.Intn(6) {
+	case 0, 1:
+		return LinkOp{} // ignorable
+	case 2:
+		return LinkOp{TST: true, N: r.Intn(2)}
+	case 3:
+		return LinkOp{N: 1 + r.Intn(4)}
+	}
+	return LinkOp{Valid: true, TST: r.Intn(4) == 0, N: r.Intn(5)}
+}
+
+func randKeys(r *rand.Rand, max int) []string {
+	n := r.Intn(max + 1)
+	out := make([]string, n)
+	for i := range out {
+		out[i] = fmt.Sprintf("ea%d", r.Intn(4))
+	}
+	return out
+}
+
 func random(args []string) {
 	fs := flag.NewFlagSet("random", flag.ExitOnError)
 	n := fs.Int("n", 200, "")
@@ -496,11 +811,22 @@ func random(args []string) {
 	res := vh.NewResult()
 	names := []string{"n1", "n2", "e1", "e2"}
 	codesL := []string{"Unset", "Error", "Ok"}
+	tss := []string{"", "", "t1", "t2"}
 	for sc := 0; sc < *n; sc++ {
 		lim := randLim(r)
 		rep := r.Intn(12)
 		nops := 3 + r.Intn(20)
 		nkeys := 2 + r.Intn(11)
+		start := Op{Op: "Start", Attrs: []AAttr{}, Links: []LinkOp{}}
+		if r.Intn(3) > 0 {
+			for j, k := 0, r.Intn(7); j < k; j++ {
+				start.Attrs = append(start.Attrs, randAttr(r, nkeys, 8))
+			}
+			for j, k := 0, r.Intn(7); j < k; j++ {
+				start.Links = append(start.Links, randLink(r))
+			}
+			nops = r.Intn(12)
+		}
 		var ops []Op
 		for i := 0; i < nops; i++ {
 			var op Op
@@ -512,11 +838,15 @@ func random(args []string) {
 					op.Attrs = append(op.Attrs, randAttr(r, nkeys, 8))
 				}
 			case 5, 6:
-				op = Op{Op: "AddEvent", Name: names[2+r.Intn(2)], N: r.Intn(5)}
+				op = Op{Op: "AddEvent", Name: names[2+r.Intn(2)], Keys: randKeys(r, 5), TS: tss[r.Intn(4)]}
 			case 7:
-				op = Op{Op: "RecordError", N: r.Intn(3)}
+				op = Op{Op: "RecordError", Keys: randKeys(r, 3), TS: tss[r.Intn(4)], Stack: r.Intn(2) == 0, NilErr: r.Intn(10) == 0}
+				if op.NilErr {
+					op = Op{Op: "RecordError", NilErr: true}
+				}
 			case 8:
-				op = Op{Op: "AddLink", Valid: r.Intn(3) > 0, N: r.Intn(5)}
+				l := randLink(r)
+				op = Op{Op: "AddLink", Valid: l.Valid, TST: l.TST, N: l.N}
 			case 9:
 				op = Op{Op: "SetStatus", Code: codesL[r.Intn(3)], Desc: []string{"", "d1", "d2"}[r.Intn(3)]}
 			case 10:
@@ -525,35 +855,42 @@ func random(args []string) {
 				if r.Intn(3) == 0 {
 					op = Op{Op: "End"}
 				} else {
-					op = Op{Op: "SetName", Name: names[r.Intn(2)]}
+					op = Op{Op: "Peek"}
 				}
 			}
 			ops = append(ops, op)
 		}
-		// one observation per prefix: the exported span after ops[:i+1] (fresh span each time)
-		tw.Emit(map[string]any{"ev": "New", "sc": sc, "lim": lim})
+		all := append([]Op{start}, ops...)
+		countRegimes(res, "random", lim, all)
+		// one observation per prefix: the exported span after Start + ops[:i+1] (fresh span each
+		// time); the first observation is the span right after Start
+		tw.Emit(map[string]any{"ev": "New", "sc": sc, "lim": lim, "start": start})
 		step := 1
 		if nops > 8 {
 			step = 1 + r.Intn(3)
 		}
 		last := 0
-		for i := 0; i < nops; i++ {
-			if (i+1)%step != 0 && i != nops-1 {
+		for i := -1; i < nops; i++ {
+			if i >= 0 && (i+1)%step != 0 && i != nops-1 {
 				continue
 			}
-			got, p := run(lim, ops[:i+1], rep)
+			got, p := run(lim, all[:i+2], rep)
 			res.Executed++
 			if p != nil {
-				res.AddMismatch(vh.Mismatch{Kind: "panic", Case: caseSig(lim, ops[:i+1], "panic"), Path: ops[:i+1], Detail: fmt.Sprint(p)})
+				res.AddMismatch(vh.Mismatch{Kind: "panic", Case: caseSig(lim, all[:i+2], "panic"), Path: all[:i+2], Detail: fmt.Sprint(p)})
 				break
 			}
 			sort.Slice(got.Attrs, func(a, b int) bool { return got.Attrs[a].K < got.Attrs[b].K })
-			tw.Emit(map[string]any{"ev": "Ops", "sc": sc, "ops": ops[last : i+1], "obs": got, "rep": rep})
+			obsOps := ops[last : i+1]
+			if obsOps == nil {
+				obsOps = []Op{}
+			}
+			tw.Emit(map[string]any{"ev": "Ops", "sc": sc, "ops": obsOps, "obs": got, "rep": rep})
 			last = i + 1
 		}
 		res.Evaluations++
 		if sc < 2 {
-			res.Sample(map[string]any{"lim": lim, "ops": ops})
+			res.Sample(map[string]any{"lim": lim, "start": start, "ops": ops})
 		}
 	}
 	vh.Must(tw.Close())
